@@ -72,6 +72,12 @@ PURE_EXTERNAL = {
     "std::clone::Clone::clone",
 }
 
+# fields of these ADTs are named `Adt.field` in terms (the EBR rules tell Global.epoch from Local.epoch)
+QUALIFIED_ADTS = {"ebr_impl::internal::Global", "ebr_impl::internal::Local", "ebr_impl::internal::SealedBag",
+                  "ebr_impl::sync::queue::Queue", "ebr_impl::sync::queue::Node", "ebr_impl::sync::list::Entry",
+                  "ebr_impl::sync::list::List", "ebr_impl::sync::list::Iter", "ebr_impl::guard::Guard",
+                  "ebr_impl::collector::LocalHandle", "ebr_impl::collector::Collector"}
+
 _uid = itertools.count(1)
 
 
@@ -250,6 +256,7 @@ class Exec:
         self.max_paths = max_paths
         self.npaths = 0
         self.pure = pure if pure is not None else prog_purity(prog)
+        self.frozen = frozen_fields(prog)
 
     # -------------------------------------------------------------- public
     def paths(self, body, args=None):
@@ -488,7 +495,11 @@ class Exec:
                     cur = ("deref", cur)
                     mem = True
             elif "field" in e:
-                cur = _field(e.get("name", e["field"]), cur)
+                fname = e.get("name", e["field"])
+                adt = e.get("adt")
+                if adt in QUALIFIED_ADTS:
+                    fname = "%s.%s" % (adt.split("::")[-1], fname)
+                cur = _field(fname, cur)
             elif "downcast" in e:
                 cur = ("variant", e.get("name"), cur)
             elif "index" in e:
@@ -510,6 +521,11 @@ class Exec:
             return base
         t, mem = self._place_term(body, st, place, want_mem=True)
         if mem:
+            last = proj[-1]
+            if isinstance(last, dict) and "field" in last and (last.get("adt"), last.get("name")) in self.frozen:
+                # a field that is never assigned nor mutably borrowed anywhere in the crate: reading it
+                # through the same pointer always yields the same value
+                return t
             return ("load", t, st.memver)
         return t
 
@@ -696,6 +712,11 @@ class Exec:
         else:
             for i in range(cbody.arg_count):
                 env[i + 1] = args[i] if i < len(args) else ("unk", "arg", fresh())
+            if cbody.kind == "closure" and cbody.arg_count >= 1:
+                selfty = cbody.local_ty(1)
+                a0 = env[1]
+                if not selfty.startswith("&") and isinstance(a0, tuple) and a0[0] == "ref":
+                    env[1] = a0[1]
         st2 = st.fork()
         st2.env_stack = None
         saved_env = st.env
@@ -908,6 +929,47 @@ class _State:
                       dict(self.ranges))
 
 
+# ------------------------------------------------------------------ frozen fields
+
+def frozen_fields(prog):
+    """(adt, field) pairs of local ADTs that no body ever assigns, mutably borrows or takes a
+    mutable raw address of (interior mutability goes through &Cell / &Atomic methods and is not a
+    direct read)."""
+    if hasattr(prog, "_frozen"):
+        return prog._frozen
+    allf = set()
+    for a in prog.items["adts"]:
+        for v in a["variants"]:
+            for f in v["fields"]:
+                allf.add((a["path"], f["name"]))
+    thawed = set()
+
+    def mark(place):
+        for e in place["proj"]:
+            if isinstance(e, dict) and "field" in e and e.get("adt"):
+                thawed.add((e["adt"], e.get("name")))
+
+    for b in prog.bodies.values():
+        for blk in b.blocks:
+            for st in blk["stmts"]:
+                if st["k"] == "assign":
+                    if st["place"]["proj"]:
+                        mark(st["place"])
+                    rv = st["rv"]
+                    if rv["k"] in ("ref", "rawptr") and rv.get("mut"):
+                        mark(rv["place"])
+                        # whole-struct mutable borrow through a pointer: every field of that ADT thaws
+                        ty = rv["place"]["ty"]
+                        for (adt, fn) in allf:
+                            if ty.startswith(adt):
+                                thawed.add((adt, fn))
+            t = blk["term"]
+            if t["k"] == "call" and t["dest"]["proj"]:
+                mark(t["dest"])
+    prog._frozen = allf - thawed
+    return prog._frozen
+
+
 # ------------------------------------------------------------------ purity of local functions
 
 def prog_purity(prog):
@@ -1053,11 +1115,19 @@ def _mk_map(which):
             return
         r0 = args[0]
         run_variant, keep_variant = ("Ok", "Err") if which == "map" else ("Err", "Ok")
+        known_variant = r0[2] if isinstance(r0, tuple) and r0[0] == "agg" and r0[2] in ("Ok", "Err") else None
+        if known_variant == keep_variant:
+            for r in cont(st, r0):
+                yield r
+            return
         # runs
         st_r = st.fork()
         st_r.events.append(Event("cond", bb, frame, body, term=("is_ok", r0), value=1 if which == "map" else 0,
                                  exp=False, span=span, is_bool=True))
         payload = ("ok_payload" if which == "map" else "err_payload", r0)
+        if known_variant == run_variant:
+            payload = r0[3][0]
+            st_r.events.pop()   # the variant is known: no condition to record
         if cb is not None:
             st_r.events.append(Event("hof", bb, frame, body, target=target, ntarget=nt, args=args, closure=cb.name,
                                      span=span, model="runs-iff-" + run_variant))
@@ -1074,6 +1144,8 @@ def _mk_map(which):
             res = ("agg", "std::result::Result", run_variant, (ret,), 0 if run_variant == "Ok" else 1, ("0",))
             for r in cont(st_r, res):
                 yield r
+        if known_variant == run_variant:
+            return
         # does not run
         st_k = st.fork()
         st_k.events.append(Event("cond", bb, frame, body, term=("is_ok", r0), value=0 if which == "map" else 1,
